@@ -123,7 +123,7 @@ def collect(run, results, mine, w_args, menu_fn, ignore=(), part=None):
                 run.fail(sig, dict(call=r["call"], result=r["res"], error=r["err"], failing=r["bad"],
                                    pre_state=r.get("vals")),
                          dict(harness="step", vals=r.get("vals"), clauses=sorted(set(b[0] for b in failed)),
-                              call=r["call"], part=part))
+                              call=r["call"], part=part, expect_hang=r.get("expect_hang", False)))
 
 
 def make_replayer(w_args, menu_fn, kernels_fn=None):
